@@ -5,18 +5,30 @@
 //      sample variance; complex: sum over both components, and each component half of it), zero mean, white
 //      (lags 1..8, re/im cross-correlation), uncorrelated with x, Gaussian shape (skewness / excess kurtosis);
 //      SNR -10..80 dB, amplitudes over 120 dB, lengths 1e4..1e6 (1e4..1e5 quick), tones / multitones / broadband / DC.
+//      Every trial also: the noise power of EACH SIXTEENTH of the record (7 s.e.; a block left without noise or
+//      given it twice shows up), no run of samples returned unchanged, and the tie y == x + sigma*randn(n) bit for bit
+//      against a separate randn(n) after the same rng(seed).  Length classes: k*2^16, k*2^17, k*2^18 (k = 1..4),
+//      2^18 +- 1, 10^6, 999424, primes 46349 / 65537 / 999983 (real and complex), amplitude classes 1e-100 .. 1e100,
+//      operands that are temporaries, input left unchanged.
 //   B. thd / sinad / snr on the stated tone family (1..5 harmonics at -10..-40 dBc, random phases, every component
 //      >= 100 bins from the others, DC and Nyquist, amplitudes over 80 dB, lengths 2048..2^17 incl. non powers of two,
 //      on-bin / coherent / off-bin, aliased harmonics): thd within 0.1 dB, frequencies within 0.1 bin, sinad within
-//      1.5 dB; scale invariance c*x, c > 0.
+//      1.5 dB; scale invariance c*x, c > 0 (c = 10^-3..10^3, powers of two, 1e+-8, 1e-17, 1e+-100).
+//      The BOUNDARY of the family at every length class (2048 .. 2^17, 2049 .. 131071, 100001, 100003, 120000): some
+//      distance exactly d bins, d = 100, 100.5, 101, 128, 130, random in [100, 130] — fundamental to DC (in bins of the
+//      transform and in bins of the record), top harmonic to Nyquist, aliased harmonics d bins from the fundamental /
+//      from DC / from Nyquist / from each other.  Results after failed calls (nharm = 1, record above the size limit)
+//      equal the results before.
 //   C. after rng(seed) every generator replays bit-identically (seeds 0..1000, interleaved programs, different
-//      histories before the two runs incl. an odd number of randn() calls), randi inside its inclusive bounds and
+//      histories before the two runs incl. an odd number of randn() calls and a failed call), randi inside its inclusive bounds and
 //      reaching both of them, single-value and negative ranges.
 // CORR (against the Lean model, Model/Noise.lean): awgn element-wise with the drawn values as inputs; the whole
 //   _harm_analyze / snr / sinad / thd skeleton on given spectra (exhaustive small spectra with ties and zeros, random
 //   spectra, real periodograms); _periodogram (replicated with the public API, replica tied to the internal one
 //   bit for bit through thd(Time) == thd(replica, Psd)) against the model's textbook DFT; thd/snr/sinad(Time) against
-//   the model's whole pipeline; rand / randn / awgn streams against the model's mt19937 + libstdc++ distributions.
+//   the model's whole pipeline; rand / randn / awgn streams against the model's mt19937 + libstdc++ distributions,
+//   incl. single calls of 2^16 .. 2^20 values (compared through a digest: count, FNV-1a over the 64-bit patterns,
+//   first and last value) with scalar draws after them (the engine has advanced by exactly the right amount).
 #include "common.hpp"
 #include <algorithm>
 #include <climits>
@@ -26,6 +38,12 @@ static vh::Out out;
 static const ld PI_L = 3.141592653589793238462643383279502884L;
 
 static std::string jd(double d) { return vh::jnum(d); }
+static bool same_bits(double a, double b) { return std::memcmp(&a, &b, 8) == 0 || (std::isnan(a) && std::isnan(b)); }
+// which of the two randn(n) calls of the complex overload is evaluated first (unspecified in C++): probe_awgn_order()
+static bool g_imag_first = true;
+// per-block noise power: 16 comparisons per trial, chi-square tail of the shortest blocks (625 samples) => 7 s.e.
+static const int NBLK = 16;
+static const ld BLK_SE = 7;
 
 // ------------------------------------------------------------------------------------------------
 // A. awgn
@@ -112,6 +130,33 @@ static void awgn_real_trial(vh::Rng& g, int N, double snr, double amp, int kind,
     if (fabsl(s.skew) > 8 * sqrtl(6.0L / N) || fabsl(s.kurt) > 8 * sqrtl(24.0L / N)) out.fail("C19:awgn-real-shape", js);
     const long dev = lroundl(1000 * fabsl(s.pow - pt) / (pt * sqrtl(2.0L / N)));
     out.stats["awgn_real_max_dev_milli_se"] = std::max(out.stats["awgn_real_max_dev_milli_se"], (long long)dev);
+    // every sixteenth of the record has its share of the noise; no sample comes back unchanged
+    {
+        long untouched = 0, first_un = -1;
+        for (int t = 0; t < N; ++t) if (y[t] == x[t]) { if (untouched++ == 0) first_un = t; }
+        if (untouched > 3)
+            out.fail("C19:awgn-real-samples-without-noise", js.substr(0, js.size() - 1) + ",\"unchanged_samples\":" + std::to_string(untouched) + ",\"first\":" + std::to_string(first_un) + "}");
+        for (int b = 0; b < NBLK; ++b) {
+            const long lo = long((long long)N * b / NBLK), hi = long((long long)N * (b + 1) / NBLK);
+            ld p = 0;
+            for (long t = lo; t < hi; ++t) p += n[t] * n[t];
+            p /= (hi - lo);
+            const ld se = pt * sqrtl(2.0L / (hi - lo));
+            if (!(fabsl(p - pt) <= BLK_SE * se))
+                out.fail("C19:awgn-real-block-power", js.substr(0, js.size() - 1) + ",\"block\":[" + std::to_string(lo) + "," + std::to_string(hi) + "],\"power_over_expected\":" + jd(double(p / pt)) + "}");
+            out.stats["awgn_block_max_dev_milli_se"] = std::max(out.stats["awgn_block_max_dev_milli_se"], (long long)lroundl(1000 * fabsl(p - pt) / se));
+        }
+    }
+    // tie to the stream: y = x + sigma * randn(n) with the values a separate randn(n) returns after the same rng(seed)
+    {
+        rng(libseed);
+        const arr_real z = randn(N);
+        const double sd = rms(x) * std::pow(10, ((-1) * snr / 20));
+        long bad = -1;
+        for (int t = 0; t < N && bad < 0; ++t) if (!same_bits(y[t], x[t] + z[t] * sd)) bad = t;
+        if (bad >= 0) out.fail("C19:awgn-real-not-x-plus-sigma-randn", js.substr(0, js.size() - 1) + ",\"first_differing_sample\":" + std::to_string(bad) + "}");
+    }
+    out.stat(N >= (1 << 16) && N % (1 << 16) == 0 ? "awgn_len_multiple_of_65536" : "awgn_len_other");
     if (out.stats["awgn_real_tone"] + out.stats["awgn_real_gauss"] <= 2) out.sample(js);
 }
 
@@ -167,11 +212,36 @@ static void awgn_cmplx_trial(vh::Rng& g, int N, double snr, double amp, int kind
         out.fail("C19:awgn-cmplx-shape", js);
     const long dev = lroundl(1000 * fabsl(sr.pow + si.pow - pt) / (pt / rn));
     out.stats["awgn_cmplx_max_dev_milli_se"] = std::max(out.stats["awgn_cmplx_max_dev_milli_se"], (long long)dev);
+    {
+        long untouched = 0, first_un = -1;
+        for (int t = 0; t < N; ++t) if (y[t].re == x[t].re || y[t].im == x[t].im) { if (untouched++ == 0) first_un = t; }
+        if (untouched > 3)
+            out.fail("C19:awgn-cmplx-samples-without-noise", js.substr(0, js.size() - 1) + ",\"unchanged_samples\":" + std::to_string(untouched) + ",\"first\":" + std::to_string(first_un) + "}");
+        for (int b = 0; b < NBLK; ++b) {
+            const long lo = long((long long)N * b / NBLK), hi = long((long long)N * (b + 1) / NBLK);
+            ld pr = 0, pi = 0;
+            for (long t = lo; t < hi; ++t) { pr += nr[t] * nr[t]; pi += ni[t] * ni[t]; }
+            pr /= (hi - lo); pi /= (hi - lo);
+            const ld se = pc * sqrtl(2.0L / (hi - lo)), set = pt / sqrtl(ld(hi - lo));
+            if (!(fabsl(pr + pi - pt) <= BLK_SE * set) || !(fabsl(pr - pc) <= BLK_SE * se) || !(fabsl(pi - pc) <= BLK_SE * se))
+                out.fail("C19:awgn-cmplx-block-power", js.substr(0, js.size() - 1) + ",\"block\":[" + std::to_string(lo) + "," + std::to_string(hi) + "],\"power_over_expected\":[" + jd(double(pr / pc)) + "," + jd(double(pi / pc)) + "]}");
+            out.stats["awgn_block_max_dev_milli_se"] = std::max(out.stats["awgn_block_max_dev_milli_se"], (long long)lroundl(1000 * fabsl(pr + pi - pt) / set));
+        }
+    }
+    {
+        rng(libseed);
+        const arr_real z1 = randn(N), z2 = randn(N);
+        const arr_real& zre = g_imag_first ? z2 : z1;
+        const arr_real& zim = g_imag_first ? z1 : z2;
+        const double sd = std::sqrt(0.5) * rms(x) * std::pow(10, ((-1) * snr / 20));
+        long bad = -1;
+        for (int t = 0; t < N && bad < 0; ++t) if (!same_bits(y[t].re, x[t].re + zre[t] * sd) || !same_bits(y[t].im, x[t].im + zim[t] * sd)) bad = t;
+        if (bad >= 0) out.fail("C19:awgn-cmplx-not-x-plus-sigma-randn", js.substr(0, js.size() - 1) + ",\"first_differing_sample\":" + std::to_string(bad) + "}");
+    }
+    out.stat(N >= (1 << 16) && N % (1 << 16) == 0 ? "awgn_len_multiple_of_65536" : "awgn_len_other");
     if (out.stats["awgn_cmplx_multitone"] <= 1 && kind == 1) out.sample(js);
 }
 
-// which of the two randn(n) calls of the complex overload is evaluated first (unspecified in C++)
-static bool g_imag_first = true;
 static void probe_awgn_order() {
     arr_cmplx z(8);
     for (int i = 0; i < 8; ++i) z[i] = cmplx_t{1, 1};
@@ -189,6 +259,54 @@ static void probe_awgn_order() {
     else if (m_rf == 8) g_imag_first = false;
     else out.fail("C19:awgn-cmplx-not-two-randn-draws", "{\"op\":\"awgn_cmplx\",\"n\":8,\"snr\":0,\"rng\":12345}");
     out.stats["awgn_cmplx_imag_drawn_first"] = g_imag_first ? 1 : 0;
+}
+
+// operands that are temporaries give what named operands give (bit for bit, sign of zero included), the result owns its
+// storage (bound to const&, range-for over the call expression), the input is left unchanged
+static void awgn_value_category(vh::Rng& g) {
+    static const int ns[] = {1, 2, 7, 64, 1000, 70000};
+    for (int n : ns) {
+        arr_real x(n);
+        arr_cmplx xc(n);
+        for (int i = 0; i < n; ++i) { x[i] = (i % 5 == 3) ? -0.0 : g.sym(); xc[i] = cmplx_t{g.sym(), (i % 7 == 2) ? -0.0 : g.sym()}; }
+        if (n > 1) x[0] = 1;   // a non-zero signal
+        const arr_real x0(x);
+        const arr_cmplx xc0(xc);
+        const double snr = -10 + 90 * g.unit();
+        const int seed = g.range(0, 100000);
+        const std::string js = "{\"op\":\"awgn_temporaries\",\"n\":" + std::to_string(n) + ",\"snr\":" + jd(snr) + ",\"rng\":" + std::to_string(seed) + "}";
+        vh::set_current("C19:crash:awgn-temporaries", js);
+        rng(seed);
+        const arr_real y1 = awgn(x, snr);
+        rng(seed);
+        const arr_real& y2 = awgn(arr_real(x), snr);
+        rng(seed);
+        const arr_real& y3 = awgn(x * 1.0, snr);
+        rng(seed);
+        const arr_real& y4 = awgn(x.slice(0, n), snr);
+        rng(seed);
+        std::vector<double> y5;
+        for (double v : awgn(x + zeros(n) * 0.0, snr)) y5.push_back(v);
+        bool ok = y2.size() == n && y3.size() == n && y4.size() == n && int(y5.size()) == n;
+        for (int i = 0; ok && i < n; ++i) ok = same_bits(y1[i], y2[i]) && same_bits(y1[i], y4[i]) && same_bits(x[i], x0[i]);
+        // x * 1.0 keeps every bit; x + (+0) turns -0 into +0: compare on the values
+        for (int i = 0; ok && i < n; ++i) ok = same_bits(y1[i], y3[i]) && y1[i] == y5[i];
+        rng(seed);
+        const arr_cmplx c1 = awgn(xc, snr);
+        rng(seed);
+        const arr_cmplx& c2 = awgn(arr_cmplx(xc), snr);
+        rng(seed);
+        const arr_cmplx& c3 = awgn(xc * 1.0, snr);
+        bool okc = c2.size() == n && c3.size() == n;
+        for (int i = 0; okc && i < n; ++i)
+            okc = same_bits(c1[i].re, c2[i].re) && same_bits(c1[i].im, c2[i].im) && same_bits(c1[i].re, c3[i].re) && same_bits(c1[i].im, c3[i].im) &&
+                  same_bits(xc[i].re, xc0[i].re) && same_bits(xc[i].im, xc0[i].im);
+        vh::clear_current();
+        out.n_oracle += 2;
+        out.stat("awgn_temporaries", 2);
+        if (!ok) out.fail("C19:awgn-real-temporary-operand", js);
+        if (!okc) out.fail("C19:awgn-cmplx-temporary-operand", js);
+    }
 }
 
 // CORR: the element-wise update with the drawn values as inputs
@@ -234,7 +352,6 @@ static arr_real replica_periodogram(const arr_real& sig) {
     return spec;
 }
 
-static bool same_bits(double a, double b) { return std::memcmp(&a, &b, 8) == 0 || (std::isnan(a) && std::isnan(b)); }
 static bool same_bits(const arr_real& a, const arr_real& b) {
     if (a.size() != b.size()) return false;
     for (int i = 0; i < a.size(); ++i) if (!same_bits(a[i], b[i])) return false;
@@ -250,6 +367,7 @@ struct ToneCase {
     int N = 0, nfft = 0, H = 0;
     bool aliased = false;
     int grid = 0;   // 0 off-bin, 1 on an nfft bin, 2 coherent (on an N bin)
+    int edge = -1;  // >= 0: constructed on the boundary of the family (boundary_case)
     double f0 = 0, A = 1;
     std::vector<double> dbc, ph;   // dbc[h] of harmonic h+2; ph[0..H]
     std::string json() const {
@@ -258,19 +376,32 @@ struct ToneCase {
         for (size_t i = 0; i < dbc.size(); ++i) s += (i ? "," : "") + jd(dbc[i]);
         s += "],\"phase\":[";
         for (size_t i = 0; i < ph.size(); ++i) s += (i ? "," : "") + jd(ph[i]);
-        return s + "]}";
+        s += "]";
+        if (edge >= 0) s += ",\"boundary\":" + std::to_string(edge) + ",\"f0_bins\":" + jd(f0 * nfft);
+        return s + "}";
     }
 };
 
-static bool separated(const ToneCase& c) {
+// eps (bins): rounding allowance of the distance computation for members constructed ON the boundary
+static bool separated(const ToneCase& c, double eps = 0) {
     std::vector<double> b;
     for (int h = 1; h <= c.H + 1; ++h) b.push_back((c.aliased ? fold(h * c.f0) : h * c.f0) * c.nfft);
     for (size_t i = 0; i < b.size(); ++i) {
-        if (b[i] < 100 || b[i] > c.nfft / 2.0 - 100) return false;
+        if (b[i] < 100 - eps || b[i] > c.nfft / 2.0 - 100 + eps) return false;
         if (!c.aliased && (i + 1) * c.f0 > 0.5) return false;
-        for (size_t j = 0; j < i; ++j) if (std::fabs(b[i] - b[j]) < 100) return false;
+        for (size_t j = 0; j < i; ++j) if (std::fabs(b[i] - b[j]) < 100 - eps) return false;
     }
     return true;
+}
+
+static void fill_levels(vh::Rng& g, ToneCase& c) {
+    c.A = std::pow(10.0, 2 * g.sym());
+    c.dbc.clear();
+    c.ph.clear();
+    for (int h = 0; h < c.H; ++h) c.dbc.push_back(-10 - 30 * g.unit());
+    if (g.range(0, 5) == 0) c.dbc[0] = -10;
+    if (g.range(0, 5) == 0) c.dbc[c.H - 1] = -40;
+    for (int h = 0; h <= c.H; ++h) c.ph.push_back(6.283185307179586 * g.unit());
 }
 
 static ToneCase make_case(vh::Rng& g, int N) {
@@ -289,11 +420,42 @@ static ToneCase make_case(vh::Rng& g, int N) {
         c.H = 0;
     }
     if (c.H == 0) { c.H = 1; c.aliased = false; c.grid = 0; c.f0 = 0.11; }   // always separated for nfft >= 2048
-    c.A = std::pow(10.0, 2 * g.sym());
-    for (int h = 0; h < c.H; ++h) c.dbc.push_back(-10 - 30 * g.unit());
-    if (g.range(0, 5) == 0) c.dbc[0] = -10;
-    if (g.range(0, 5) == 0) c.dbc[c.H - 1] = -40;
-    for (int h = 0; h <= c.H; ++h) c.ph.push_back(6.283185307179586 * g.unit());
+    fill_levels(g, c);
+    return c;
+}
+
+// A member of the stated tone family ON ITS BOUNDARY: one distance (several in the aliased constellations) is exactly
+// d bins, d in [100, 130].  "Bin" of the transform (1/nfft) for edges 0, 2, 4..6, of the record (1/N, coherent for
+// integer d; never closer than 100 transform bins) for edges 1, 3.
+//   0 / 1  fundamental d bins from DC (the harmonics are then d bins from each other)
+//   2 / 3  top harmonic d bins from Nyquist
+//   4      aliased, f0 = (1 - d/nfft)/3: 2nd harmonic folds to f0 + d, 3rd to d bins from DC, 4th to f0 - d, ...
+//   5      aliased, f0 = (1 + d/nfft)/3: mirrored (f0 - d, d from DC, f0 + d, ...)
+//   6      aliased, f0 = 1/4 + d/(2 nfft): 2nd harmonic folds to d bins from Nyquist, 4th to 2d bins from DC
+static const int NEDGE = 7;
+static ToneCase boundary_case(vh::Rng& g, int N, int edge, double d) {
+    ToneCase c;
+    c.N = N;
+    c.nfft = 1 << nextpow2(N);
+    c.edge = edge;
+    const double nf = c.nfft;
+    for (int H = g.range(1, 5); H >= 1; --H) {
+        c.H = H;
+        c.aliased = edge >= 4;
+        switch (edge) {
+        case 0: c.f0 = d / nf; break;
+        case 1: c.f0 = d / N; break;
+        case 2: c.f0 = (0.5 - d / nf) / (H + 1); break;
+        case 3: c.f0 = (0.5 - d / N) / (H + 1); break;
+        case 4: c.f0 = (1 - d / nf) / 3; break;
+        case 5: c.f0 = (1 + d / nf) / 3; break;
+        default: c.f0 = 0.25 + d / (2 * nf); break;
+        }
+        const double bn = c.f0 * nf, bN = c.f0 * N;
+        c.grid = (bn == std::floor(bn)) ? 1 : (bN == std::floor(bN)) ? 2 : 0;
+        if (separated(c, 1e-6)) { fill_levels(g, c); return c; }
+    }
+    c.H = 0;   // no member of the family with this constellation at this length
     return c;
 }
 
@@ -338,11 +500,35 @@ static void harm_corr(const arr_real& spec, int nharm, bool aliased) {
 
 static long long& smax(const char* k) { return out.stats[k]; }
 
-static void measure_trial(vh::Rng& g, int N, bool corr) {
-    const ToneCase c = make_case(g, N);
+static const double XSCALE[] = {1e-100, 1e-17, 1e-8, 1e8, 1e100};
+
+// A component EXACTLY midway between two bins of the transform has two equal top bins in exact arithmetic, and for some
+// phases / amplitudes / scale factors they are equal as doubles too.  With strict descents starting at the peak bin only,
+// _get_psd_tone of lib/snr.cpp integrated half of the lobe (-3.01 dB, centroid off by > 1 bin; repaired in /repo 4c73026:
+// the descents start at both ends of the plateau of bins equal to the peak).  The probe stays: oracle failures on an
+// input whose spectrum shows such an exact tie are reported under their own key (C19:thd-lobe-top-tie, the failed
+// clause in the witness), so a regression is named for what it is.
+static bool lobe_top_tie(const ToneCase& c, const arr_real& spec) {
+    for (int h = 1; h <= c.H + 1; ++h) {
+        const double b = (c.aliased ? fold(h * c.f0) : h * c.f0) * c.nfft;
+        const int k = int(std::floor(b));
+        if (std::fabs(b - k - 0.5) < 1e-6 && k >= 0 && k + 1 < spec.size() && spec[k] == spec[k + 1]) return true;
+    }
+    return false;
+}
+
+static void measure_case(vh::Rng& g, const ToneCase& c, bool corr) {
+    const int N = c.N;
     const std::string js = c.json();
     const arr_real x = synth(c, 0, nullptr);
     const int nh = c.H + 1;
+    const arr_real spec = replica_periodogram(x);
+    const bool tie_x = lobe_top_tie(c, spec);
+    if (tie_x) out.stat("tones_lobe_top_exact_tie");
+    auto fail = [&](const char* key, const std::string& j, bool tie) {
+        if (tie) out.fail("C19:thd-lobe-top-tie", j.substr(0, j.size() - 1) + ",\"failed\":\"" + key + "\"}");
+        else out.fail(key, j);
+    };
     vh::set_current("C19:crash:thd", js);
     const ThdRes r = thd(x, nh, c.aliased);
     const double sd = sinad(x);
@@ -353,11 +539,13 @@ static void measure_trial(vh::Rng& g, int N, bool corr) {
     out.stat(c.aliased ? "tones_aliased" : "tones_plain");
     out.stat(c.grid == 0 ? "tones_offbin" : c.grid == 1 ? "tones_onbin" : "tones_coherent");
     out.stat((N & (N - 1)) == 0 ? "tones_len_pow2" : "tones_len_other");
+    if (c.edge >= 0) out.stat(std::string("tones_boundary_edge") + std::to_string(c.edge));
+    if (N > 100000) out.stat("tones_len_above_100000");
     ld hp = 0;
     for (int h = 0; h < c.H; ++h) hp += powl(10.0L, ld(c.dbc[h]) / 10);
     const double want = double(10 * log10l(hp));
     const double e_thd = std::fabs(r.value - want);
-    if (!(e_thd <= 0.1)) out.fail("C19:thd-value", js);
+    if (!(e_thd <= 0.1)) fail("C19:thd-value", js, tie_x);
     double e_f = 0;
     if (r.harmfreq.size() != nh || r.harmpow.size() != nh) out.fail("C19:thd-shape", js);
     else {
@@ -366,19 +554,18 @@ static void measure_trial(vh::Rng& g, int N, bool corr) {
             const double e = std::fabs(r.harmfreq[h] - ft) * c.nfft;
             e_f = std::isnan(e) ? 1e9 : std::max(e_f, e);
         }
-        if (!(e_f <= 0.1)) out.fail("C19:thd-freq", js);
+        if (!(e_f <= 0.1)) fail("C19:thd-freq", js, tie_x);
         double e_h = 0;   // per-harmonic level (statistic only: the property bounds the total)
         for (int h = 1; h < nh; ++h) e_h = std::max(e_h, std::fabs((r.harmpow[h] - r.harmpow[0]) - c.dbc[h - 1]));
         smax("thd_max_harm_err_femto_dB") = std::max(smax("thd_max_harm_err_femto_dB"), (long long)std::llround(1e15 * std::min(1.0, e_h)));
     }
     const double e_sd = std::fabs(sd - (-want));
-    if (!(e_sd <= 1.5)) out.fail("C19:sinad-value", js);
+    if (!(e_sd <= 1.5)) fail("C19:sinad-value", js, tie_x);
     smax("thd_max_err_femto_dB") = std::max(smax("thd_max_err_femto_dB"), (long long)std::llround(1e15 * std::min(1.0, e_thd)));
     smax("thd_max_freq_err_femto_bin") = std::max(smax("thd_max_freq_err_femto_bin"), (long long)std::llround(1e15 * std::min(e_f, 1.0)));
     smax("sinad_max_err_microdB") = std::max(smax("sinad_max_err_microdB"), (long long)std::llround(1e6 * e_sd));
 
     // the harness's re-statement of _periodogram is the library's (bit for bit)
-    const arr_real spec = replica_periodogram(x);
     {
         const ThdRes rp = thd(spec, nh, c.aliased, SinadType::Psd);
         if (!same_bits(rp.value, r.value) || !same_bits(rp.harmpow, r.harmpow) || !same_bits(rp.harmfreq, r.harmfreq) ||
@@ -388,15 +575,22 @@ static void measure_trial(vh::Rng& g, int N, bool corr) {
 
     // scale invariance: an arbitrary positive factor (|delta| <= 1e-9 dB) and a power of two (exact)
     {
-        const double cf = std::pow(10.0, 3 * g.sym());
+        const bool xs = g.range(0, 5) == 0;   // scale classes far outside 10^+-3
+        const double cf = xs ? XSCALE[g.range(0, 4)] : std::pow(10.0, 3 * g.sym());
+        if (xs) out.stat("scale_extreme_factor");
         const arr_real xc = x * cf;
         const ThdRes rc = thd(xc, nh, c.aliased);
         const double sdc = sinad(xc), snc = snr(xc, nh, c.aliased);
         const std::string js2 = js.substr(0, js.size() - 1) + ",\"scale\":" + jd(cf) + "}";
-        if (!(std::fabs(rc.value - r.value) <= 1e-9)) out.fail("C19:scale-thd", js2);
-        if (!(std::fabs(sdc - sd) <= 1e-9)) out.fail("C19:scale-sinad", js2);
+        bool bad_t = !(std::fabs(rc.value - r.value) <= 1e-9), bad_s = !(std::fabs(sdc - sd) <= 1e-9), bad_f = false;
         for (int h = 0; h < nh && h < rc.harmfreq.size(); ++h)
-            if (!(std::fabs(rc.harmfreq[h] - r.harmfreq[h]) * c.nfft <= 1e-9)) out.fail("C19:scale-freq", js2);
+            if (!(std::fabs(rc.harmfreq[h] - r.harmfreq[h]) * c.nfft <= 1e-9)) bad_f = true;
+        if (bad_t || bad_s || bad_f) {
+            const bool tie = tie_x || lobe_top_tie(c, replica_periodogram(xc));   // a tie made or broken by the factor's rounding
+            if (bad_t) fail("C19:scale-thd", js2, tie);
+            if (bad_s) fail("C19:scale-sinad", js2, tie);
+            if (bad_f) fail("C19:scale-freq", js2, tie);
+        }
         // snr of a noise-free signal is the ratio to the ROUNDING noise of the transform: not a defined quantity;
         // its dependence on the factor is recorded, the clause is checked on signals with a noise floor below
         smax("scale_snr_noisefree_max_delta_millidB") =
@@ -408,6 +602,23 @@ static void measure_trial(vh::Rng& g, int N, bool corr) {
         if (!same_bits(rq.value, r.value) || !same_bits(rq.harmfreq, r.harmfreq) || !same_bits(sinad(xp), sd) || !same_bits(snr(xp, nh, c.aliased), sn))
             out.fail("C19:scale-pow2-not-exact", js.substr(0, js.size() - 1) + ",\"scale\":" + jd(p2) + "}");
         out.n_oracle += 2;
+    }
+    // failed calls in the history: after a rejected nharm and a rejected (oversize) record the same call returns the same
+    if (g.range(0, 3) == 0) {
+        int thrown = 0;
+        vh::set_current("C19:crash:thd-after-failed-call", js);
+        try { (void)thd(x, 1, c.aliased); } catch (const std::exception&) { ++thrown; }
+        try { (void)thd(spec, 1, c.aliased, SinadType::Psd); } catch (const std::exception&) { ++thrown; }
+        try { (void)sinad(zeros((1 << 18) + 1)); } catch (const std::exception&) { ++thrown; }
+        try { (void)snr(zeros((1 << 18) + 1), nh, c.aliased); } catch (const std::exception&) { ++thrown; }
+        const ThdRes ra = thd(x, nh, c.aliased);
+        const double sda = sinad(x), sna = snr(x, nh, c.aliased);
+        vh::clear_current();
+        out.n_oracle++;
+        out.stat("tones_after_failed_calls");
+        if (thrown != 4) out.fail("C19:thd-invalid-call-accepted", js.substr(0, js.size() - 1) + ",\"thrown\":" + std::to_string(thrown) + "}");
+        if (!same_bits(ra.value, r.value) || !same_bits(ra.harmpow, r.harmpow) || !same_bits(ra.harmfreq, r.harmfreq) || !same_bits(sda, sd) || !same_bits(sna, sn))
+            out.fail("C19:thd-differs-after-failed-call", js);
     }
     // the same family with a noise floor (-40..-110 dBc): snr / sinad / thd under an arbitrary positive factor
     {
@@ -432,6 +643,15 @@ static void measure_trial(vh::Rng& g, int N, bool corr) {
     }
     if (corr) harm_corr(spec, nh, c.aliased);
     if (out.stats["tones_plain"] + out.stats["tones_aliased"] <= 3) out.sample(js);
+}
+
+static void measure_trial(vh::Rng& g, int N, bool corr) { measure_case(g, make_case(g, N), corr); }
+
+static void boundary_trial(vh::Rng& g, int N, int edge, double d, bool corr = false) {
+    const ToneCase c = boundary_case(g, N, edge, d);
+    if (c.H == 0) { out.stat("tones_boundary_not_in_family"); return; }
+    measure_case(g, c, corr);
+    if (out.stats["tones_boundary_samples"]++ < 2) out.sample(c.json());
 }
 
 // CORR: _periodogram against the model's textbook DFT, and the Time-domain entry points against the whole model
@@ -609,7 +829,17 @@ static void replay_trial(vh::Rng& g, int seed) {
     // run 3: re-seed in the middle of a partially consumed normal pair inside an array call (odd n)
     (void)randn(2 * g.range(0, 3) + 1);
     rng(seed);
-    run_prog(prog, o3, viol);
+    if (g.coin()) {
+        // ... and a failed library call (rejected nharm, oversize record) in the MIDDLE of the program: it must leave the
+        // thread's stream alone
+        const size_t cut = size_t(g.range(0, int(prog.size())));
+        run_prog(std::vector<Op>(prog.begin(), prog.begin() + cut), o3, viol);
+        try { (void)thd(zeros(16), 1); out.fail("C19:thd-invalid-call-accepted", "{\"op\":\"thd\",\"n\":16,\"nharm\":1}"); } catch (const std::exception&) {}
+        try { (void)sinad(zeros((1 << 18) + 1)); out.fail("C19:thd-invalid-call-accepted", "{\"op\":\"sinad\",\"n\":262145}"); } catch (const std::exception&) {}
+        run_prog(std::vector<Op>(prog.begin() + cut, prog.end()), o3, viol);
+        out.stat("replay_failed_call_in_history");
+    } else
+        run_prog(prog, o3, viol);
     vh::clear_current();
     out.n_oracle += 3;
     for (const Op& p : prog) out.stat(std::string("replay_op_") + op_name(p.kind));
@@ -683,6 +913,43 @@ static void stream_corr(vh::Rng& g, int seed) {
     out.stat("corr_stream");
 }
 
+// CORR: one call returning 2^16 .. 2^20 values inside a program (small calls before, scalar draws after: the engine has
+// advanced by exactly the right amount), compared through a digest: count, FNV-1a over the 64-bit patterns, first, last
+static void stream_digest_corr(vh::Rng& g, int seed, int kind, int n) {
+    std::vector<Op> prog;
+    Op pre = make_op(g);
+    pre.n = g.range(0, 7);
+    Op big = make_op(g);
+    while (big.kind != kind) big = make_op(g);
+    big.n = n;
+    Op z1, z2 = make_op(g), z3;
+    z1.kind = 3;   // randn(): a fresh normal_distribution after the big call
+    z2.n = g.range(1, 7);
+    z3.kind = 0;   // rand()
+    if (g.coin()) prog.push_back(pre);
+    prog.push_back(big);
+    prog.push_back(z1);
+    prog.push_back(z2);
+    prog.push_back(z3);
+    std::string lhs = "streamD " + std::to_string(seed) + " " + (g_imag_first ? "1" : "0") + " " + std::to_string(prog.size());
+    for (const Op& o : prog)
+        lhs += " " + std::to_string(o.kind) + " " + std::to_string(o.n) + " " + std::to_string(o.lo) + " " + std::to_string(o.hi) + " " + vh::hx(o.a) + " " + vh::hx(o.b) + " " +
+               vh::hx(o.snr);
+    std::vector<uint64_t> o;
+    std::string viol;
+    vh::set_current("C19:crash:generators", prog_json(seed, prog));
+    rng(seed);
+    run_prog(prog, o, viol);
+    vh::clear_current();
+    uint64_t h = 0xcbf29ce484222325ULL;
+    for (uint64_t u : o) { h ^= u; h *= 0x100000001b3ULL; }
+    out.corr(lhs, std::to_string(o.size()) + " " + std::to_string((unsigned long long)h) + " " + std::to_string((unsigned long long)(o.empty() ? 0 : o.front())) + " " +
+                      std::to_string((unsigned long long)(o.empty() ? 0 : o.back())));
+    if (!viol.empty()) out.fail("C19:generator-out-of-range", prog_json(seed, prog).substr(0, prog_json(seed, prog).size() - 1) + ",\"which\":\"" + viol + "\"}");
+    out.stat("corr_stream_digest");
+    out.stat(std::string("corr_stream_digest_") + op_name(kind));
+}
+
 // ------------------------------------------------------------------------------------------------
 int main(int argc, char** argv) {
     vh::Args a(argc, argv);
@@ -708,6 +975,34 @@ int main(int argc, char** argv) {
             const int kind = t % 5;
             if (t & 1) awgn_cmplx_trial(g, N, snr, amp, kind, g.range(0, 1000000));
             else awgn_real_trial(g, N, snr, amp, kind, g.range(0, 1000000));
+        }
+        // length classes (one big call after smaller ones): exact multiples of 2^16 / 2^17 / 2^18, 2^18 +- 1, the ends of
+        // the stated range, lengths with a prime factor above 46340
+        {
+            std::vector<int> edge = {(1 << 18) - 1, (1 << 18) + 1, 1000000, 999424, 46349, 65537, 999983};
+            for (int k = 1; k <= 4; ++k) { edge.push_back(k << 16); edge.push_back(k << 17); edge.push_back(k << 18); }
+            std::sort(edge.begin(), edge.end());
+            edge.erase(std::unique(edge.begin(), edge.end()), edge.end());
+            out.stats["awgn_length_classes"] = (long long)edge.size();
+            for (int rep = 0; rep < (a.thorough ? 3 : 1); ++rep)
+                for (size_t i = 0; i < edge.size(); ++i)
+                    for (int cplx = 0; cplx < 2; ++cplx) {
+                        double snr = -10 + 90 * g.unit();
+                        if (g.range(0, 7) == 0) snr = g.coin() ? -10 : 80;
+                        const double amp = std::pow(10.0, 3 * g.sym());
+                        const int kind = int((i + rep + cplx) % 5);
+                        if (cplx) awgn_cmplx_trial(g, edge[i], snr, amp, kind, g.range(0, 1000000));
+                        else awgn_real_trial(g, edge[i], snr, amp, kind, g.range(0, 1000000));
+                    }
+            // amplitude classes far outside 10^+-3 (the oracle is relative)
+            for (int rep = 0; rep < (a.thorough ? 4 : 1); ++rep)
+                for (double amp : XSCALE) {
+                    const int N = rep == 0 ? 10000 : g.range(10000, 100000);
+                    awgn_real_trial(g, N, -10 + 90 * g.unit(), amp, g.range(0, 4), g.range(0, 1000000));
+                    awgn_cmplx_trial(g, N, -10 + 90 * g.unit(), amp, g.range(0, 4), g.range(0, 1000000));
+                    out.stat("awgn_extreme_amplitude", 2);
+                }
+            awgn_value_category(g);
         }
         // excluded points of the theorems, on the real code: empty input draws nothing, zero signal gets zero noise
         {
@@ -740,6 +1035,39 @@ int main(int argc, char** argv) {
             else measure_trial(g, big[(rep * 4 + 1) % big.size()], false);
             if (a.thorough) measure_trial(g, g.range(20000, 131072), false);
         }
+        // the boundary of the tone family at every length class
+        {
+            const std::vector<int> blens = {2048, 4096, 8192, 16384, 32768, 65536, 131072, 2049, 2500, 3000, 4095, 4097, 5000,
+                                            10000, 30000, 46349, 65537, 100000, 100001, 100003, 120000, 131071};
+            static const double ds[] = {100, 100.5, 101, 128, 130};
+            if (a.thorough) {
+                for (int N : blens)
+                    for (int e = 0; e < NEDGE; ++e) {
+                        for (double d : ds) boundary_trial(g, N, e, d);
+                        boundary_trial(g, N, e, 100 + 30 * g.unit());
+                        boundary_trial(g, N, e, double(g.range(100, 130)));
+                    }
+            } else {
+                // fixed representatives: the longest records with the fundamental 100 .. 128 bins from DC
+                boundary_trial(g, 131072, 0, 100);
+                boundary_trial(g, 131072, 0, 100.5, true);
+                boundary_trial(g, 131072, 0, 100.5 + 27.5 * g.unit());
+                boundary_trial(g, 131072, 0, 128);
+                boundary_trial(g, 120000, 1, 101);
+                boundary_trial(g, 120000, 0, 100);
+                boundary_trial(g, 100001, 1, 100 + 17 * g.unit());
+                boundary_trial(g, 131071, 0, double(g.range(100, 130)));
+                boundary_trial(g, 131072, 2, 100);
+                boundary_trial(g, 131072, g.range(4, 6), 100);
+                boundary_trial(g, 2048, 0, 100);
+                boundary_trial(g, 2048, 2, 100);
+                // and one constellation per length, rotating with the run's seed
+                for (size_t i = 0; i < blens.size(); ++i) {
+                    const int e = int((i + a.seed) % NEDGE), k = g.range(0, 6);
+                    boundary_trial(g, blens[i], e, k < 5 ? ds[k] : 100 + 30 * g.unit());
+                }
+            }
+        }
         small_spectra(a.thorough ? 6 : 5);
         random_spectra(g, a.thorough ? 1500 : 300);
         // the all-zero spectrum (0/0 inside the code: NaN on both sides of every scale-invariance statement)
@@ -759,6 +1087,29 @@ int main(int argc, char** argv) {
         randi_endpoints(g, a.thorough ? 400 : 80);
         for (int k = 0; k < (a.thorough ? 300 : 60); ++k) stream_corr(g, k < 20 ? k : g.range(0, 1000));
         stream_corr(g, -1);
+        // single calls of 2^16 .. 2^20 values: awgn real / complex, randn(n), rand(n), rand(range, n), randi(range, n)
+        if (a.thorough) {
+            std::vector<int> big = {(1 << 18) - 1, (1 << 18) + 1, 1000000, 999424, 999983};
+            for (int k = 1; k <= 4; ++k) { big.push_back(k << 16); big.push_back(k << 17); big.push_back(k << 18); }
+            std::sort(big.begin(), big.end());
+            big.erase(std::unique(big.begin(), big.end()), big.end());
+            for (int n : big) {
+                stream_digest_corr(g, g.range(0, 1000), 9, n);
+                stream_digest_corr(g, g.range(0, 1000), 10, n);
+                stream_digest_corr(g, g.range(0, 1000), 4, n);
+            }
+            static const int other[] = {1, 2, 6, 8};
+            for (int k : other) { stream_digest_corr(g, g.range(0, 1000), k, 1 << 18); stream_digest_corr(g, g.range(0, 1000), k, 65537); }
+        } else {
+            static const int rot[] = {1 << 16, 3 << 16, 1 << 17, 3 << 17, 1 << 19, (1 << 18) + 1, (1 << 18) - 1, 999424};
+            stream_digest_corr(g, g.range(0, 1000), 9, 1 << 18);
+            stream_digest_corr(g, g.range(0, 1000), 10, 1 << 18);
+            stream_digest_corr(g, g.range(0, 1000), 4, 1 << 18);
+            stream_digest_corr(g, g.range(0, 1000), 9, rot[a.seed % 8]);
+            stream_digest_corr(g, g.range(0, 1000), 10, rot[(a.seed + 3) % 8]);
+            stream_digest_corr(g, g.range(0, 1000), g.range(0, 1) ? 1 : 2, 1 << 16);
+            stream_digest_corr(g, g.range(0, 1000), g.range(0, 1) ? 6 : 8, 1 << 16);
+        }
     }
     vh::unwatch();
     out.finish();
